@@ -46,7 +46,7 @@ CHECKS = {
          "DESIGN.md §5 C08, §4 E3"),
  "C07": ("mc-graph", "model_checking",
          "exhaustive pair enumeration over a generated type universe against the reference validator's subtype relation + BFS over memo contents",
-         "A type universe (every value-type constructor to depth 2, field/case/param renames and reorderings, arity changes, async, option/result arms, alias chains, instance width/depth, component import/export subsets, core module limits/flags/globals/tags, values; 170 items quick / 215 thorough) is generated as the imports of one component; for all ordered pairs of resource-free items SubtypeChecker::is_subtype (fresh memo) must agree with wasmparser's ComponentEntityType::is_subtype_of in the same validator. Functions over own / borrow handles of two fixed imported resources (10 shapes) are compared among themselves the same way (the resources are the same on both sides, so only the structure counts). Reflexivity across two independent decodes, transitivity over all accepted chains, and an explicit-state BFS over memo contents (depth 3/4 over a 12-pair family sharing sub-terms; every family pair re-probed in every memo state) follow.",
+         "A type universe (every value-type constructor to depth 2, field/case/param renames and reorderings, arity changes, async, option/result arms, alias chains, instance width/depth, component import/export subsets, core module limits/flags/globals/tags, values; 215 items in both tiers) is generated as the imports of one component; for all ordered pairs of resource-free items SubtypeChecker::is_subtype (fresh memo) must agree with wasmparser's ComponentEntityType::is_subtype_of in the same validator. Functions over own / borrow handles of two fixed imported resources (10 shapes) are compared among themselves the same way (the resources are the same on both sides, so only the structure counts). Reflexivity across two independent decodes, transitivity over all accepted chains, and an explicit-state BFS over memo contents (depth 4 over a 12-pair family sharing sub-terms; every family pair re-probed in every memo state) follow.",
          "Trusts wasmparser 0.247's subtype relation, corrected for two known quirks (it ignores table64 and the shared flag of globals; core import matching requires equality there, and wac's pinned tests agree). Apart from the handle family, resources only take part in reflexivity; resourceful argument passing is covered by C01's LibT.",
          "DESIGN.md §5 C07"),
  "C09": ("mc-graph", "model_checking",
